@@ -210,7 +210,9 @@ def bloom_formula(ctx, cfg):
     k_ref = z3.fpToSBV(RNE, z3.fpRoundToIntegral(RNE, z3.fpDiv(RNE, z3.fpMul(RNE, z3.FPVal(0.6931471805599453, D), z3.fpSignedToFP(RNE, m_ref, D)), n)),
                        z3.BitVecSort(64))
     uf_check(ctx, z3.And(m.t == m_ref, k.t == k_ref, t.t == t32), "bloom-size-is-documented-formula", {"p": p.t},
-             lambda v: _bloom_oracle(est, v["p"]), install)
+             lambda v: _bloom_oracle(est, v["p"]), install,
+             regions=[z3.And(z3.fpGT(p.t, z3.FPVal(lo, D)), z3.fpLT(p.t, z3.FPVal(hi, D)))
+                      for lo, hi in ((0.04, 0.06), (0.85, 0.95), (0.10, 0.13), (0.3, 0.35), (0.005, 0.006), (0.6, 0.7), (0.02, 0.025), (0.45, 0.5))])
 
 
 def _depth_oracle(c):
